@@ -346,6 +346,52 @@ func checkC15(c *km.Ctx) {
 				}
 			}
 			r.Add("R-C15-2", km.FuncName(cp), "Commit is last", posOf(c, cm), "after Commit only nil or Commit's own error is returned", sprintf("%v", okAfter), okAfter)
+			// every result set that is copied was read to its end without error: rows.Close() does not report an
+			// iteration error, so a Commit reached without rows.Err() == nil can publish a truncated copy
+			nRows := 0
+			for _, ci := range km.CallsIn(cp) {
+				qc, isCall := ci.(*ssa.Call)
+				if !isCall {
+					continue
+				}
+				qn := km.CalleeFull(qc.Common())
+				if qn != "(*database/sql.DB).Query" && qn != "(*database/sql.DB).QueryContext" && qn != "(*database/sql.Tx).Query" {
+					continue
+				}
+				var rows ssa.Value
+				for _, ref := range *qc.Referrers() {
+					if ex, ok := ref.(*ssa.Extract); ok && ex.Index == 0 {
+						rows = ex
+					}
+				}
+				if rows == nil {
+					continue
+				}
+				// only result sets that are iterated
+				iterated := false
+				for _, c2 := range km.CallsIn(cp) {
+					if km.CalleeFull(c2.Common()) == "(*database/sql.Rows).Next" && km.Unwrap(c2.Common().Args[0]) == rows {
+						iterated = true
+					}
+				}
+				if !iterated {
+					continue
+				}
+				nRows++
+				errChecked := km.Prim{Name: "rows.Err() == nil", Direct: func(f km.Fact) bool {
+					if f.Op != token.EQL || !km.IsNilConst(f.Y) {
+						return false
+					}
+					ec, ok := f.X.(*ssa.Call)
+					return ok && km.CalleeFull(ec.Common()) == "(*database/sql.Rows).Err" && km.Unwrap(ec.Common().Args[0]) == rows
+				}}
+				st := c.F.At(cm)
+				okErr := len(st) > 0 && st.All(func(k km.Conj) bool { return s.Holds(k, errChecked) })
+				r.Add("R-C15-2", km.FuncName(cp), "result set read to its end before Commit", posOf(c, qc), "rows.Err() == nil established on every path from the copy loop to Commit", sprintf("%v", okErr), okErr)
+			}
+			if nRows == 0 {
+				r.AnchorLost("R-C15-2", "iterated source result sets in copyDBIntoSQLite")
+			}
 			// R-C15-3
 			seenT := map[string]bool{}
 			for _, in := range inserts {
